@@ -95,7 +95,7 @@ func init() {
 		cur := app("store", bal, inAddr, app("-", app("select", bal, inAddr), inAmt))
 		sum := "0"
 		for i := 0; i < 3; i++ {
-			el := app("select", arr, app("+", app("soff", outs.S), intLit64(int64(i))))
+			el := app("select", arr, app("idx", app("soff", outs.S), intLit64(int64(i))))
 			a := app("addr_str", app(oss.fields[0], el))
 			m := e.coinsTotal(st, Val{S: app(oss.fields[1], el), T: oss.ftypes[1]})
 			present := app("<", intLit64(int64(i)), n)
